@@ -90,7 +90,8 @@ def run(ctx):
     ctx.note("cli_files_reported_different_after_write", default_cfg_drift)
     first = lambda pre: [c for c in cases if c["src"].startswith(pre)][:1]
     for c in cases[:2] + first("std/") + first("focus/comment") + first("focus/doc") + first("focus/quote"):
-        ctx.sample({"src": c["src"], "text": c["text"][:200], "cfg": _fmt.model_cfg(c["cfg"])})
+        ctx.sample({"src": c["src"], "text": c["text"][:200],
+                    "cfg": c["cfg"] if c["src"].startswith("focus/") else _fmt.model_cfg(c["cfg"])})
     for sig, ds in sorted(found.items()):
         ctx.violation(sig, {"count": len(ds), "sources": sorted({d["src"] for d in ds})[:12], "first": ds[0], "more": ds[1:3]})
     ctx.rule("a case = (program, configuration) as in C05 (incl. the FmtFocus.tla families: trailing-comment groups x "
